@@ -6,7 +6,7 @@
    * `findWrappingTypes`: direct invariant of the breadth-first queue for what an answer means
      (`findWrappingTypes_spec`), and a simulation by `wrapSearch` of PM/Fill.lean for the fuel
      (`findWrappingTypes_complete`: `none` means that no wrapper chain exists at all).
-   * `createAndFill`: more fuel never changes an answer (`createAndFill_fuel_mono`).  NOT proved here:
+   * `createAndFill`: more fuel never changes an answer (`createAndFillO_fuel_mono`).  NOT proved here:
      that `none` at the fuel `#types + 1` is `none` at every fuel (a type needed inside itself, where
      the code recurses without bound) — the sibling definition of PM/CreateFill.lean has that proof
      (Proofs/CreateFill.lean `createAndFill_raises_aux`). -/
@@ -139,7 +139,7 @@ theorem mapM_option_mono {α β : Type} (f g : α → Option β) (hfg : ∀ a b,
         simpa using h
 
 /-- **more fuel never changes an answer of `create_and_fill`** -/
-theorem createAndFill_fuel_succ (S : Schema) : ∀ (fuel : Nat) (ty : TypeId) (n : Node),
+theorem createAndFillO_fuel_succ (S : Schema) : ∀ (fuel : Nat) (ty : TypeId) (n : Node),
     createAndFill S fuel ty = some n → createAndFill S (fuel + 1) ty = some n
   | 0, _, _, h => by simp [createAndFill] at h
   | fuel + 1, ty, n, h => by
@@ -153,14 +153,14 @@ theorem createAndFill_fuel_succ (S : Schema) : ∀ (fuel : Nat) (ty : TypeId) (n
         split at h
         · simp at h
         · rename_i kids hk
-          rw [mapM_option_mono _ _ (createAndFill_fuel_succ S fuel) tys kids hk]
+          rw [mapM_option_mono _ _ (createAndFillO_fuel_succ S fuel) tys kids hk]
           exact h
 
-theorem createAndFill_fuel_mono (S : Schema) (fuel k : Nat) (ty : TypeId) (n : Node)
+theorem createAndFillO_fuel_mono (S : Schema) (fuel k : Nat) (ty : TypeId) (n : Node)
     (h : createAndFill S fuel ty = some n) : createAndFill S (fuel + k) ty = some n := by
   induction k with
   | zero => exact h
-  | succ k ih => exact createAndFill_fuel_succ S _ ty n ih
+  | succ k ih => exact createAndFillO_fuel_succ S _ ty n ih
 
 /-- the nodes of a filling have the filling's types -/
 theorem fillBeforeNodes_types (S : Schema) (d : Dfa) (q : Nat) (after : List TypeId) (toEnd : Bool)
